@@ -379,3 +379,6 @@ def run(rep, repo, tier):
     rep.floor('R-CTYPE:post', 16)
     rep.floor('R-FORWARD', 2)
     Q.floors(rep)
+    import c11_order
+    c11_order.run_ext(rep, repo, tier)
+
